@@ -181,11 +181,16 @@ impl Iso {
             }
             "tick" => {
                 let addrs: Vec<u8> = self.shadows.keys().cloned().collect();
+                let failaddr = act["failaddr"].as_str().map(addr_of);
                 for addr in addrs {
                     let pid = pid_of_addr(addr).unwrap_or(u32::MAX);
                     let sh = self.shadows.get_mut(&addr).unwrap();
+                    let fail_this = failaddr == Some(addr);
                     run(sh, addr, pid, &mut |c, cb| {
+                        let saved = cb.fail_sends;
+                        cb.fail_sends = saved || fail_this;
                         let _ = c.tick(cb);
+                        cb.fail_sends = saved;
                         vec![]
                     }, &mut sh_evs, &mut sh_sends, &mut sh_res);
                 }
@@ -292,6 +297,36 @@ pub fn drive(args: &[String]) -> i32 {
         }
         writeln!(f, "{}", rec).unwrap();
     };
+    // deterministic preamble: three peers with armed timers, then ticks during which the send callback fails
+    // for one address at a time (the other peers must be ticked and served all the same)
+    for a in 0..naddrs.min(3) {
+        if accepting {
+            let c = &mut remotes[a as usize];
+            rcb[a as usize].now_us = iso.w.now_us;
+            let cb = &mut rcb[a as usize];
+            let _ = catch(|| { let _ = c.connect(cb); });
+            for b in rcb[a as usize].out.drain(..) {
+                to_net.push((a, b));
+            }
+        } else {
+            log(&mut iso, json!({"a": "connect", "addr": addr_name(a)}), &mut f, &mut remotes, &mut rcb, &mut to_net);
+        }
+    }
+    if accepting {
+        while !to_net.is_empty() {
+            let (addr, bytes) = to_net.remove(0);
+            log(&mut iso, json!({"a": "feed", "addr": addr_name(addr), "bytes": vh_common::hex(&bytes)}), &mut f, &mut remotes, &mut rcb, &mut to_net);
+        }
+        for (pid, _) in iso.peers() {
+            log(&mut iso, json!({"a": "accept", "pid": pid}), &mut f, &mut remotes, &mut rcb, &mut to_net);
+        }
+        to_net.clear();
+    }
+    for a in 0..naddrs.min(3) {
+        log(&mut iso, json!({"a": "advance", "d": 500}), &mut f, &mut remotes, &mut rcb, &mut to_net);
+        log(&mut iso, json!({"a": "tick", "failaddr": addr_name(a)}), &mut f, &mut remotes, &mut rcb, &mut to_net);
+    }
+    to_net.clear();
     while count < n {
         count += 1;
         let r: f64 = rng.gen();
@@ -368,7 +403,8 @@ pub fn drive(args: &[String]) -> i32 {
             next_id += 1;
             log(&mut iso, json!({"a": "connless", "addr": addr_name(a), "id": next_id % 250, "sz": (next_id % 9) + 1}), &mut f, &mut remotes, &mut rcb, &mut to_net);
         } else if r < 0.93 {
-            log(&mut iso, json!({"a": "tick"}), &mut f, &mut remotes, &mut rcb, &mut to_net);
+            let act = if rng.gen::<f64>() < 0.15 { json!({"a": "tick", "failaddr": addr_name(a)}) } else { json!({"a": "tick"}) };
+            log(&mut iso, act, &mut f, &mut remotes, &mut rcb, &mut to_net);
         } else {
             let d = if rng.gen::<bool>() { 500 } else { rng.gen_range(1..1200) };
             log(&mut iso, json!({"a": "advance", "d": d}), &mut f, &mut remotes, &mut rcb, &mut to_net);
